@@ -1,5 +1,5 @@
 (** Correspondence check for C11: the model is run on the inputs the implementation ran on. *)
-From Verif Require Import GoSem Patch.
+From Verif Require Import GoSem Patch PatchProofsCheck.
 
 (** What was observed for a pair of documents (patch.MPDDiff directly, or the /patch/ handler) *)
 Record tree_obs := mkTO {
@@ -33,6 +33,8 @@ Definition applied (ops : list op) (old new : elem) : bool :=
   | None => false
   end.
 
+Definition premise (old new : elem) : bool := tree_okb (@myers elem) (S (depth old)) old new.
+
 Definition case_ok (c : c11case) : bool :=
   match c with
   | CMyers _ e f obs =>
@@ -49,7 +51,10 @@ Definition case_ok (c : c11case) : bool :=
       seqb (p_mpdId p) (to_mpdId o) && seqb (p_orig p) (to_orig o) && seqb (p_new p) (to_new o) &&
       list_eqb op_eqb (p_ops p) (to_ops o) &&
       ((to_exp o =? -1) || (p_expiration p / 1000000000 =? to_exp o)) &&
-      Bool.eqb (applied (to_ops o) old new) (to_applied o)
+      Bool.eqb (applied (to_ops o) old new) (to_applied o) &&
+      (* the premise of theorem C11_checked, evaluated on this pair: where it holds the patch of the
+         implementation must apply (by both appliers) *)
+      (negb (premise old new) || (applied (to_ops o) old new && to_applied o))
     | _ => true
     end
   end.
